@@ -7,7 +7,7 @@
 #include "common.h"
 #include "key.h"
 using namespace verif;
-typedef long long ll;
+typedef long ll;
 
 // ------------------------------------------------------------------ rand() interposition
 static int g_rand_value = 0;
@@ -20,7 +20,7 @@ extern "C" int rand(void)
 static const int SEEDS[4] = {0, 1, 2, 3};
 
 // ------------------------------------------------------------------ helpers
-static RCP<const Integer> I(ll v)
+static RCP<const Integer> Int(ll v)
 {
     return integer(integer_class(std::to_string(v)));
 }
@@ -48,7 +48,7 @@ static std::string S(ll v)
 {
     return std::to_string(v);
 }
-static const char *sgn(ll v)
+static const char *sc(ll v)
 {
     return v < 0 ? "<0" : v == 0 ? "=0" : ">0";
 }
@@ -242,6 +242,32 @@ struct Mixed {
     }
 };
 
+// explicit table of the argument tuples of a Mixed range that satisfy a predicate (no index padding)
+struct Tab {
+    int w = 0;
+    std::vector<int> d;
+    Tab() {}
+    Tab(const Mixed &mx, const std::function<bool(const std::vector<ll> &)> &keep)
+    {
+        w = mx.lo.size();
+        ll t = mx.total();
+        for (ll i = 0; i < t; i++) {
+            auto v = mx.at(i);
+            if (keep(v))
+                for (ll x : v)
+                    d.push_back((int)x);
+        }
+    }
+    ll total() const
+    {
+        return w ? (ll)d.size() / w : 0;
+    }
+    std::vector<ll> at(ll i) const
+    {
+        return std::vector<ll>(d.begin() + i * w, d.begin() + (i + 1) * w);
+    }
+};
+
 // One sub-check = one CaseSet.  Counter slots common to all: 0 judged results, 1 library refusals (exceptions) where the
 // documentation allows them, 2 arguments outside the documented domain (not called), 3 method gave up (allowed).
 struct Sub {
@@ -279,7 +305,7 @@ int main(int argc, char **argv)
     {
         RCP<const Integer> f;
         unsigned long before = g_rand_calls;
-        factor_pollard_rho_method(outArg(f), *I(91));
+        factor_pollard_rho_method(outArg(f), *Int(91));
         if (g_rand_calls == before) {
             fprintf(stderr, "rand() interposition is not effective\n");
             return 2;
@@ -289,7 +315,7 @@ int main(int argc, char **argv)
 
     // ================================================================ gcd, lcm, gcd_ext, divides, mod/quotient (both conventions)
     {
-        const ll R = T ? 40 : 24;
+        const ll R = T ? 60 : 24;
         Mixed mx{{-R, -R}, {R, R}};
         Sub s("gcd-lcm-divmod", mx.total());
         s.cs.desc = [=](ll i) {
@@ -299,8 +325,8 @@ int main(int argc, char **argv)
         s.cs.body = [=](ll i, Ctx &c) {
             auto v = mx.at(i);
             ll a = v[0], b = v[1];
-            auto A = I(a), B = I(b);
-            std::string cl = std::string("(a") + sgn(a) + ",b" + sgn(b) + ")", d = "a=" + S(a) + " b=" + S(b), err;
+            auto A = Int(a), B = Int(b);
+            std::string cl = std::string("(a") + sc(a) + ",b" + sc(b) + ")", d = "a=" + S(a) + " b=" + S(b), err;
             if (a != 0 && b != 0 && absll(a) != absll(b))
                 c.nontrivial();
             // gcd
@@ -361,7 +387,7 @@ int main(int argc, char **argv)
 
     // ================================================================ mod_inverse
     {
-        const ll M = T ? 60 : 36;
+        const ll M = T ? 90 : 36;
         Mixed mx{{-M, -M}, {M, M}};
         Sub s("mod_inverse", mx.total());
         s.cs.desc = [=](ll i) {
@@ -382,13 +408,13 @@ int main(int argc, char **argv)
                     break;
                 }
             RCP<const Integer> b;
-            int rv = mod_inverse(outArg(b), *I(a), *I(m));
+            int rv = mod_inverse(outArg(b), *Int(a), *Int(m));
             c.eval();
             JUDGED;
             if (want >= 0)
                 c.nontrivial();
             c.outcome(rv ? "inv" : "none");
-            std::string cl = std::string("mod_inverse(a") + sgn(a) + ",m" + sgn(m) + (am == 1 ? ",|m|=1" : "") + ")";
+            std::string cl = std::string("mod_inverse(a") + sc(a) + ",m" + sc(m) + (am == 1 ? ",|m|=1" : "") + ")";
             if ((rv != 0) != (want >= 0))
                 c.violation(cl + ":existence", s.cs.desc(i) + " returned " + S(rv) + " but an inverse " + (want >= 0 ? "exists: " + S(want) : "does not exist"));
             else if (rv && Z(b) != want)
@@ -411,9 +437,18 @@ int main(int argc, char **argv)
             mx.lo.push_back(k == 2 ? -MM : 0);
             mx.hi.push_back(k == 2 ? 2 * MM - 1 : MM - 1);
         }
-        Sub s("crt" + S(k), mx.total());
+        Mixed mx0 = mx;
+        Tab tb(mx0, [=](const std::vector<ll> &v) {
+            for (int j = 0; j < k; j++) {
+                ll m = v[j], r = v[k + j];
+                if (k == 2 ? (r < -m || r >= 2 * m) : (r >= m))
+                    return false;
+            }
+            return true;
+        });
+        Sub s("crt" + S(k), tb.total());
         s.cs.desc = [=](ll i) {
-            auto v = mx.at(i);
+            auto v = tb.at(i);
             std::string a = "crt(rem=[", b = "], mod=[";
             for (int j = 0; j < k; j++) {
                 a += (j ? "," : "") + S(v[k + j]);
@@ -422,14 +457,7 @@ int main(int argc, char **argv)
             return a + b + "])";
         };
         s.cs.body = [=](ll i, Ctx &c) {
-            auto v = mx.at(i);
-            for (int j = 0; j < k; j++) {
-                ll m = v[j], r = v[k + j];
-                if (k == 2 ? (r < -m || r >= 2 * m) : (r >= m)) {
-                    OUTSIDE; // index padding, not an argument tuple
-                    return;
-                }
-            }
+            auto v = tb.at(i);
             ll L = 1;
             for (int j = 0; j < k; j++)
                 L = ref_lcm(L, v[j]);
@@ -445,8 +473,8 @@ int main(int argc, char **argv)
             }
             std::vector<RCP<const Integer>> rem, mod;
             for (int j = 0; j < k; j++) {
-                mod.push_back(I(v[j]));
-                rem.push_back(I(v[k + j]));
+                mod.push_back(Int(v[j]));
+                rem.push_back(Int(v[k + j]));
             }
             RCP<const Integer> Rr;
             std::string err;
@@ -534,16 +562,19 @@ int main(int argc, char **argv)
             ll n = v[0], k = v[1];
             // n(n-1)...(n-k+1)/k!
             mpq_class q = 1;
-            for (ll t = 0; t < k; t++)
-                q *= mpq_class(n - t, t + 1);
-            mpz_class b = Z(binomial(*I(n), (unsigned long)k));
+            for (ll t = 0; t < k; t++) {
+                mpq_class f(n - t, t + 1);
+                f.canonicalize();
+                q *= f;
+            }
+            mpz_class b = Z(binomial(*Int(n), (unsigned long)k));
             c.eval();
             JUDGED;
             if (n >= k && k >= 1)
                 c.nontrivial();
             c.outcome("b" + S(b));
             if (q.get_den() != 1 || b != q.get_num())
-                c.violation(std::string("binomial(n") + sgn(n) + (n >= 0 && n < k ? ",n<k" : "") + ")", s.cs.desc(i) + " = " + S(b) + ", falling-factorial definition gives " + q.get_str());
+                c.violation(std::string("binomial(n") + sc(n) + (n >= 0 && n < k ? ",n<k" : "") + ")", s.cs.desc(i) + " = " + S(b) + ", falling-factorial definition gives " + q.get_str());
             if (k == 0 && n >= 0) {
                 mpz_class f = 1;
                 for (ll t = 2; t <= n; t++)
@@ -578,7 +609,7 @@ int main(int argc, char **argv)
                 RCP<const Integer> f;
                 std::string err, nm = which ? "factor" : "factor_trial_division";
                 int rv = -9;
-                bool ran = call([&] { rv = which ? factor(outArg(f), *I(n)) : factor_trial_division(outArg(f), *I(n)); }, err);
+                bool ran = call([&] { rv = which ? factor(outArg(f), *Int(n)) : factor_trial_division(outArg(f), *Int(n)); }, err);
                 c.eval();
                 JUDGED;
                 if (comp)
@@ -608,7 +639,7 @@ int main(int argc, char **argv)
             RCP<const Integer> f;
             std::string err;
             int rv = -9;
-            bool ran = call([&] { rv = factor_lehman_method(outArg(f), *I(n)); }, err);
+            bool ran = call([&] { rv = factor_lehman_method(outArg(f), *Int(n)); }, err);
             c.eval();
             c.outcome(ran ? "r" + S(rv) : "throw");
             if (n < 21) { // documented: "Require n >= 21"
@@ -646,7 +677,7 @@ int main(int argc, char **argv)
         };
         s.cs.crash_sig = [=](ll i, const std::string &oc) {
             auto v = mx.at(i);
-            return nm + "(n=" + (v[0] <= 5 ? S(v[0]) : std::string(">5")) + "):" + oc;
+            return nm + "(n=" + (v[0] <= 5 ? S(v[0]) : std::string(">5")) + "):" + oc.substr(0, oc.find(" [")); // signal class only, not the sanitizer summary
         };
         s.cs.body = [=](ll i, Ctx &c) {
             auto v = mx.at(i);
@@ -662,9 +693,9 @@ int main(int argc, char **argv)
             bool ran = call(
                 [&] {
                     if (meth)
-                        rv = v[2] ? factor_pollard_rho_method(outArg(f), *I(n), 1) : factor_pollard_rho_method(outArg(f), *I(n));
+                        rv = v[2] ? factor_pollard_rho_method(outArg(f), *Int(n), 1) : factor_pollard_rho_method(outArg(f), *Int(n));
                     else
-                        rv = v[2] ? factor_pollard_pm1_method(outArg(f), *I(n), 3) : factor_pollard_pm1_method(outArg(f), *I(n));
+                        rv = v[2] ? factor_pollard_pm1_method(outArg(f), *Int(n), 3) : factor_pollard_pm1_method(outArg(f), *Int(n));
                 },
                 err);
             c.eval();
@@ -696,7 +727,7 @@ int main(int argc, char **argv)
 
     // ================================================================ prime_factors / prime_factor_multiplicities
     {
-        const ll N = T ? 20000 : 10000;
+        const ll N = T ? 50000 : 10000;
         Mixed mx{{-60}, {N}};
         Sub s("prime-factors", mx.total());
         s.cs.desc = [=](ll i) { return "prime_factors / prime_factor_multiplicities(n=" + S(mx.at(i)[0]) + ")"; };
@@ -712,8 +743,8 @@ int main(int argc, char **argv)
             std::string err;
             bool ran = call(
                 [&] {
-                    prime_factors(pl, *I(n));
-                    prime_factor_multiplicities(pm, *I(n));
+                    prime_factors(pl, *Int(n));
+                    prime_factor_multiplicities(pm, *Int(n));
                 },
                 err);
             c.eval(2);
@@ -726,7 +757,7 @@ int main(int argc, char **argv)
             if (fs.size() >= 2 || (fs.size() == 1 && fs[0].second > 1))
                 c.nontrivial();
             c.outcome("k" + S((ll)flat.size()));
-            std::string cl = std::string("(n") + sgn(n) + ")";
+            std::string cl = std::string("(n") + sc(n) + ")";
             if (!ran) {
                 c.violation("prime_factors" + cl + ":throws", s.cs.desc(i) + " threw " + err);
                 return;
@@ -785,7 +816,7 @@ int main(int argc, char **argv)
                 c.nontrivial();
             c.outcome("h" + sstr(h).substr(0, 12));
             if (!toq(h, got) || got != want)
-                c.violation(std::string("harmonic(m") + sgn(m) + (m == 1 ? ",m=1" : "") + ")", s.cs.desc(i) + " = " + sstr(h) + ", sum of 1/i^m gives " + want.get_str());
+                c.violation(std::string("harmonic(m") + sc(m) + (m == 1 ? ",m=1" : "") + ")", s.cs.desc(i) + " = " + sstr(h) + ", sum of 1/i^m gives " + want.get_str());
             if (m != 1)
                 return;
             // Bernoulli numbers from sum_{k=0}^{n} C(n+1,k) B_k = 0 (n >= 1), B_0 = 1  [gives B_1 = -1/2]
@@ -795,7 +826,11 @@ int main(int argc, char **argv)
                 mpq_class sum = 0, bin = 1; // bin = C(t+1, k)
                 for (ll k = 0; k < t; k++) {
                     sum += bin * B[k];
-                    bin = bin * mpq_class(t + 1 - k, k + 1);
+                    {
+                        mpq_class f(t + 1 - k, k + 1);
+                        f.canonicalize();
+                        bin = bin * f;
+                    }
                 }
                 B[t] = -sum / (t + 1);
             }
@@ -825,7 +860,7 @@ int main(int argc, char **argv)
         s.cs.desc = [=](ll i) { return "primitive_root / primitive_root_list / totient / carmichael(n=" + S(mx.at(i)[0]) + ")"; };
         s.cs.body = [=](ll i, Ctx &c) {
             ll n0 = mx.at(i)[0], n = absll(n0);
-            RCP<const Integer> N0 = I(n0);
+            RCP<const Integer> N0 = Int(n0);
             std::string err;
             mpz_class ph, la;
             bool ran = call(
@@ -840,7 +875,7 @@ int main(int argc, char **argv)
                 OUTSIDE; // no agreed definition at 0
                 return;
             }
-            std::string cl = std::string("(n") + sgn(n0) + ")";
+            std::string cl = std::string("(n") + sc(n0) + ")";
             if (!ran) {
                 c.violation("totient/carmichael" + cl + ":throws", s.cs.desc(i) + " threw " + err);
                 return;
@@ -907,13 +942,14 @@ int main(int argc, char **argv)
     {
         // (n, a) with a in [-3, |n|+2]
         Mixed mx{{-30, -3}, {NG, NG + 2}};
-        Sub s("multiplicative-order", mx.total());
+        Tab tb(mx, [=](const std::vector<ll> &v) { return v[0] != 0 && v[1] <= absll(v[0]) + 2; });
+        Sub s("multiplicative-order", tb.total());
         s.cs.desc = [=](ll i) {
-            auto v = mx.at(i);
+            auto v = tb.at(i);
             return "multiplicative_order(a=" + S(v[1]) + ", n=" + S(v[0]) + ")";
         };
         s.cs.body = [=](ll i, Ctx &c) {
-            auto v = mx.at(i);
+            auto v = tb.at(i);
             ll n0 = v[0], a = v[1], n = absll(n0);
             if (n0 == 0 || a > n + 2) {
                 OUTSIDE;
@@ -922,13 +958,13 @@ int main(int argc, char **argv)
             RCP<const Integer> o;
             bool rv = false;
             std::string err;
-            bool ran = call([&] { rv = multiplicative_order(outArg(o), I(a), I(n0)); }, err);
+            bool ran = call([&] { rv = multiplicative_order(outArg(o), Int(a), Int(n0)); }, err);
             c.eval();
             JUDGED;
             bool cop = ref_gcd(a, n) == 1;
             if (cop && n > 2)
                 c.nontrivial();
-            std::string cl = std::string("multiplicative_order(a") + sgn(a) + ",n" + sgn(n0) + ")";
+            std::string cl = std::string("multiplicative_order(a") + sc(a) + ",n" + sc(n0) + ")";
             c.outcome(!ran ? "throw" : rv ? "o" + S(Z(o)) : "none");
             if (!ran)
                 c.violation(cl + ":throws", s.cs.desc(i) + " threw " + err);
@@ -943,7 +979,7 @@ int main(int argc, char **argv)
 
     // ================================================================ legendre / jacobi / kronecker
     {
-        const ll A = T ? 40 : 24, NN = T ? 101 : 61;
+        const ll A = T ? 60 : 24, NN = T ? 151 : 61;
         Mixed mx{{-A, -NN}, {A, NN}};
         Sub s("legendre-jacobi-kronecker", mx.total());
         s.cs.desc = [=](ll i) {
@@ -954,26 +990,26 @@ int main(int argc, char **argv)
             auto v = mx.at(i);
             ll a = v[0], n = v[1];
             int want = ref_kronecker(a, n);
-            int k = kronecker(*I(a), *I(n));
+            int k = kronecker(*Int(a), *Int(n));
             c.eval();
             JUDGED;
             if (want != 0 && absll(n) > 2)
                 c.nontrivial();
             c.outcome("k" + S(k));
             if (k != want)
-                c.violation(std::string("kronecker(a") + sgn(a) + ",n" + sgn(n) + (n % 2 == 0 ? ",even" : ",odd") + ")", "kronecker" + s.cs.desc(i) + " = " + S(k) + ", definition gives " + S(want));
+                c.violation(std::string("kronecker(a") + sc(a) + ",n" + sc(n) + (n % 2 == 0 ? ",even" : ",odd") + ")", "kronecker" + s.cs.desc(i) + " = " + S(k) + ", definition gives " + S(want));
             if (n > 0 && n % 2 == 1) {
-                int j = jacobi(*I(a), *I(n));
+                int j = jacobi(*Int(a), *Int(n));
                 c.eval();
                 JUDGED;
                 if (j != want)
-                    c.violation(std::string("jacobi(a") + sgn(a) + ")", "jacobi" + s.cs.desc(i) + " = " + S(j) + ", product of Legendre symbols gives " + S(want));
+                    c.violation(std::string("jacobi(a") + sc(a) + ")", "jacobi" + s.cs.desc(i) + " = " + S(j) + ", product of Legendre symbols gives " + S(want));
                 if (n > 2 && ref_isprime(n)) {
-                    int l = legendre(*I(a), *I(n));
+                    int l = legendre(*Int(a), *Int(n));
                     c.eval();
                     JUDGED;
                     if (l != ref_legendre(a, n))
-                        c.violation(std::string("legendre(a") + sgn(a) + ")", "legendre" + s.cs.desc(i) + " = " + S(l) + ", quadratic-residue definition gives " + S(ref_legendre(a, n)));
+                        c.violation(std::string("legendre(a") + sc(a) + ")", "legendre" + s.cs.desc(i) + " = " + S(l) + ", quadratic-residue definition gives " + S(ref_legendre(a, n)));
                 }
             }
         };
@@ -982,37 +1018,25 @@ int main(int argc, char **argv)
     }
 
     // ================================================================ nthroot_mod / nthroot_mod_list
-    auto pclass = [](ll m) { // shape of the modulus: which branches of the prime-power code it reaches
-        if (m <= 0)
-            return std::string("m<=0");
-        if (m == 1)
-            return std::string("m=1");
-        auto f = ref_factor(m);
-        std::string s;
-        if (f.size() > 1)
-            s = "composite:";
-        for (auto &pe : f) {
-            std::string t = pe.first == 2 ? "2" : "p";
-            t += pe.second == 1 ? "" : pe.second == 2 ? "^2" : "^k";
-            if (s.find(t + ".") == std::string::npos)
-                s += t + ".";
-        }
-        return s;
+    auto mclass = [](ll m) { // coarse class of a modulus for signatures
+        m = m < 0 ? -m : m;
+        return m == 0 ? std::string("m=0") : m == 1 ? std::string("m=1") : m % 4 == 0 ? std::string("4|m") : m % 2 == 0 ? std::string("m=2 mod 4") : std::string("odd m");
     };
     {
-        const ll MM = T ? 200 : 72, NN = T ? 8 : 6;
+        const ll MM = T ? 256 : 72, NN = T ? 10 : 6;
         Mixed mx{{-2, 1, -3}, {MM, NN, MM + 2}};
-        Sub s("nthroot_mod", mx.total());
+        Tab tb(mx, [=](const std::vector<ll> &v) { return !(v[2] > v[0] + 2 && v[0] > 0); });
+        Sub s("nthroot_mod", tb.total());
         s.cs.desc = [=](ll i) {
-            auto v = mx.at(i);
+            auto v = tb.at(i);
             return "nthroot_mod(_list)(a=" + S(v[2]) + ", n=" + S(v[1]) + ", m=" + S(v[0]) + ")";
         };
         s.cs.crash_sig = [=](ll i, const std::string &oc) {
-            auto v = mx.at(i);
-            return "nthroot_mod(a" + std::string(sgn(v[2])) + "," + pclass(v[0]) + "):" + oc;
+            auto v = tb.at(i);
+            return "nthroot_mod(a" + std::string(sc(v[2])) + "," + mclass(v[0]) + "):" + oc.substr(0, oc.find(" ["));
         };
         s.cs.body = [=](ll i, Ctx &c) {
-            auto v = mx.at(i);
+            auto v = tb.at(i);
             ll m = v[0], n = v[1], a = v[2];
             if (a > m + 2 && m > 0) {
                 OUTSIDE;
@@ -1024,8 +1048,8 @@ int main(int argc, char **argv)
             std::string err;
             bool ran = call(
                 [&] {
-                    nthroot_mod_list(lst, I(a), I(n), I(m));
-                    has = nthroot_mod(outArg(r), I(a), I(n), I(m));
+                    nthroot_mod_list(lst, Int(a), Int(n), Int(m));
+                    has = nthroot_mod(outArg(r), Int(a), Int(n), Int(m));
                 },
                 err);
             c.eval(2);
@@ -1039,15 +1063,29 @@ int main(int argc, char **argv)
             JUDGED;
             if (want.size() > 1)
                 c.nontrivial();
-            std::string acl = a < 0 ? "a<0" : a >= m ? "a>=m" : ref_gcd(a, m) == 1 ? "a coprime" : a == 0 ? "a=0" : "a shares factor";
-            std::string cl = "(" + acl + "," + pclass(m) + (ref_gcd(n, m) > 1 || ref_gcd(n, ref_totient(m)) > 1 ? ",n|phi-or-m" : "") + ")";
+            std::string acl = a < 0 ? "a<0" : a >= m ? "a>=m" : "0<=a<m";
+            std::string cl = "(" + acl + "," + mclass(m) + ")";
             c.outcome("r" + S((ll)lst.size()) + (has ? "y" : "n"));
             if (!ran) {
                 c.violation("nthroot_mod" + cl + ":throws", s.cs.desc(i) + " threw " + err);
                 return;
             }
-            if (!same(lst, want))
-                c.violation("nthroot_mod_list" + cl, "nthroot_mod_list(a=" + S(a) + ",n=" + S(n) + ",m=" + S(m) + ") = " + vecstr(lst) + ", all x in [0,m) with x^n=a are " + vecstr(want));
+            if (!same(lst, want)) {
+                // distinguish a wrong solution set (as residue classes) from a right set in non-canonical form
+                std::vector<ll> red;
+                for (auto &x : lst) {
+                    mpz_class t = Z(x) % m;
+                    if (t < 0)
+                        t += m;
+                    red.push_back(t.get_si());
+                }
+                std::sort(red.begin(), red.end());
+                bool dup = std::adjacent_find(red.begin(), red.end()) != red.end();
+                if (red == want && !dup)
+                    c.violation("nthroot_mod_list" + cl + ":non-canonical-representatives", "nthroot_mod_list(a=" + S(a) + ",n=" + S(n) + ",m=" + S(m) + ") = " + vecstr(lst) + ": right residue classes but not the sorted representatives in [0,m) " + vecstr(want));
+                else
+                    c.violation("nthroot_mod_list" + cl + ":wrong-solution-set", "nthroot_mod_list(a=" + S(a) + ",n=" + S(n) + ",m=" + S(m) + ") = " + vecstr(lst) + ", all x in [0,m) with x^n=a are " + vecstr(want));
+            }
             JUDGED;
             if (has != !want.empty())
                 c.violation("nthroot_mod" + cl + ":existence", "nthroot_mod(a=" + S(a) + ",n=" + S(n) + ",m=" + S(m) + ") returned " + S(has) + " but the solutions are " + vecstr(want));
@@ -1087,7 +1125,7 @@ int main(int argc, char **argv)
             RCP<const Integer> r;
             bool has = false;
             std::string err;
-            bool ran = call([&] { has = nthroot_mod(outArg(r), I(a), I(2), I(p)); }, err);
+            bool ran = call([&] { has = nthroot_mod(outArg(r), Int(a), Int(2), Int(p)); }, err);
             c.eval();
             JUDGED;
             c.nontrivial();
@@ -1106,7 +1144,7 @@ int main(int argc, char **argv)
 
     // ================================================================ powermod / powermod_list
     {
-        const ll MM = T ? 48 : 30;
+        const ll MM = T ? 64 : 30;
         // exponents: integers -3..3 and r/s with s in 2..4, r in -3..3 coprime to s
         std::vector<std::pair<ll, ll>> ex;
         for (ll r = -3; r <= 3; r++)
@@ -1116,13 +1154,14 @@ int main(int argc, char **argv)
                 if (r != 0 && ref_gcd(r, sden) == 1)
                     ex.push_back({r, sden});
         Mixed mx{{1, 0, -2}, {MM, (ll)ex.size() - 1, MM + 1}};
-        Sub s("powermod", mx.total());
+        Tab tb(mx, [=](const std::vector<ll> &v) { return v[2] <= v[0] + 1; });
+        Sub s("powermod", tb.total());
         s.cs.desc = [=](ll i) {
-            auto v = mx.at(i);
+            auto v = tb.at(i);
             return "powermod(_list)(a=" + S(v[2]) + ", b=" + S(ex[v[1]].first) + (ex[v[1]].second == 1 ? "" : "/" + S(ex[v[1]].second)) + ", m=" + S(v[0]) + ")";
         };
         s.cs.body = [=](ll i, Ctx &c) {
-            auto v = mx.at(i);
+            auto v = tb.at(i);
             ll m = v[0], a = v[2], r = ex[v[1]].first, sd = ex[v[1]].second;
             if (a > m + 1) {
                 OUTSIDE;
@@ -1147,29 +1186,39 @@ int main(int argc, char **argv)
                 ll target = powmod(base, absll(r), m);
                 want = ref_roots(target, sd, m);
             }
-            RCP<const Number> b = sd == 1 ? rcp_static_cast<const Number>(I(r)) : Rational::from_two_ints(*I(r), *I(sd));
+            RCP<const Number> b = sd == 1 ? rcp_static_cast<const Number>(Int(r)) : Rational::from_two_ints(*Int(r), *Int(sd));
             std::vector<RCP<const Integer>> lst;
             RCP<const Integer> pw;
             bool has = false;
             std::string err;
             bool ran = call(
                 [&] {
-                    powermod_list(lst, I(a), b, I(m));
-                    has = powermod(outArg(pw), I(a), b, I(m));
+                    powermod_list(lst, Int(a), b, Int(m));
+                    has = powermod(outArg(pw), Int(a), b, Int(m));
                 },
                 err);
             c.eval(2);
             JUDGED;
             if (sd > 1 && !want.empty())
                 c.nontrivial();
-            std::string cl = std::string("(b") + (sd == 1 ? "=integer" : "=rational") + sgn(r) + "," + pclass(m) + (defined ? "" : ",a-not-invertible") + ")";
+            std::string cl = std::string("(b") + (sd == 1 ? "=integer" : "=rational") + sc(r) + ",a" + sc(a) + "," + mclass(m) + (defined ? "" : ",a-not-invertible") + ")";
             c.outcome("p" + S((ll)lst.size()) + (has ? "y" : "n"));
             if (!ran) {
                 c.violation("powermod" + cl + ":throws", s.cs.desc(i) + " threw " + err);
                 return;
             }
-            if (!same(lst, want))
-                c.violation("powermod_list" + cl, s.cs.desc(i) + ": list = " + vecstr(lst) + ", definition gives " + vecstr(want));
+            if (!same(lst, want)) {
+                std::vector<ll> red;
+                for (auto &x : lst) {
+                    mpz_class t = Z(x) % m;
+                    if (t < 0)
+                        t += m;
+                    red.push_back(t.get_si());
+                }
+                std::sort(red.begin(), red.end());
+                bool dup = std::adjacent_find(red.begin(), red.end()) != red.end();
+                c.violation("powermod_list" + cl + (red == want && !dup ? ":non-canonical-representatives" : ":wrong-solution-set"), s.cs.desc(i) + ": list = " + vecstr(lst) + ", definition gives " + vecstr(want));
+            }
             JUDGED;
             if (has != !want.empty())
                 c.violation("powermod" + cl + ":existence", s.cs.desc(i) + ": powermod returned " + S(has) + " but the solutions are " + vecstr(want));
@@ -1198,7 +1247,7 @@ int main(int argc, char **argv)
             std::vector<ll> want(sq.begin(), sq.end());
             vec_integer_class got;
             std::string err;
-            bool ran = call([&] { got = quadratic_residues(*I(a)); }, err);
+            bool ran = call([&] { got = quadratic_residues(*Int(a)); }, err);
             c.eval();
             if (a < 1) {
                 if (ran)
@@ -1232,7 +1281,7 @@ int main(int argc, char **argv)
             ll p = v[0], a = v[1];
             bool got = false;
             std::string err;
-            bool ran = call([&] { got = is_quad_residue(*I(a), *I(p)); }, err);
+            bool ran = call([&] { got = is_quad_residue(*Int(a), *Int(p)); }, err);
             c.eval();
             if (p == 0) {
                 if (ran)
@@ -1246,7 +1295,7 @@ int main(int argc, char **argv)
             if (absll(p) > 2)
                 c.nontrivial();
             c.outcome(got ? "Q" : "N");
-            std::string cl = std::string("is_quad_residue(a") + sgn(a) + ",p" + sgn(p) + "," + pclass(absll(p)) + ")";
+            std::string cl = std::string("is_quad_residue(a") + sc(a) + ",p" + sc(p) + "," + mclass(p) + ")";
             if (!ran)
                 c.violation(cl + ":throws", s.cs.desc(i) + " threw " + err);
             else if (got != want)
@@ -1256,15 +1305,16 @@ int main(int argc, char **argv)
         nsub++;
     }
     {
-        const ll MM = T ? 128 : 72, NN = 6;
+        const ll MM = T ? 160 : 72, NN = 6;
         Mixed mx{{-MM, 1, -6}, {MM, NN, MM + 2}};
-        Sub s("is_nth_residue", mx.total());
+        Tab tb(mx, [=](const std::vector<ll> &v) { return v[2] <= absll(v[0]) + 2; });
+        Sub s("is_nth_residue", tb.total());
         s.cs.desc = [=](ll i) {
-            auto v = mx.at(i);
+            auto v = tb.at(i);
             return "is_nth_residue(a=" + S(v[2]) + ", n=" + S(v[1]) + ", mod=" + S(v[0]) + ")";
         };
         s.cs.body = [=](ll i, Ctx &c) {
-            auto v = mx.at(i);
+            auto v = tb.at(i);
             ll m = v[0], n = v[1], a = v[2];
             if (a > absll(m) + 2) {
                 OUTSIDE;
@@ -1272,12 +1322,12 @@ int main(int argc, char **argv)
             }
             bool got = false;
             std::string err;
-            bool ran = call([&] { got = is_nth_residue(*I(a), *I(n), *I(m)); }, err);
+            bool ran = call([&] { got = is_nth_residue(*Int(a), *Int(n), *Int(m)); }, err);
             c.eval();
             JUDGED;
             c.outcome(got ? "R" : "N");
             std::string acl = a < 0 ? "a<0" : a >= absll(m) ? "a>=|m|" : "0<=a<|m|";
-            std::string cl = std::string("is_nth_residue(") + acl + ",mod" + sgn(m) + "," + pclass(absll(m)) + ")";
+            std::string cl = std::string("is_nth_residue(") + acl + ",mod" + sc(m) + "," + mclass(m) + ")";
             if (!ran) {
                 c.violation(cl + ":throws", s.cs.desc(i) + " threw " + err);
                 return;
@@ -1311,7 +1361,7 @@ int main(int argc, char **argv)
             };
             int got = 0;
             std::string err;
-            bool ran = call([&] { got = mobius(*I(n)); }, err);
+            bool ran = call([&] { got = mobius(*Int(n)); }, err);
             c.eval();
             if (n <= 0) {
                 if (ran)
@@ -1361,8 +1411,8 @@ int main(int argc, char **argv)
             };
             std::string err;
             RCP<const Basic> pn, pr;
-            bool ran = call([&] { pn = polygonal_number(I(sd), I(n)); }, err);
-            bool ran2 = call([&] { pr = principal_polygonal_root(I(sd), I(n)); }, err);
+            bool ran = call([&] { pn = polygonal_number(Int(sd), Int(n)); }, err);
+            bool ran2 = call([&] { pr = principal_polygonal_root(Int(sd), Int(n)); }, err);
             c.eval(2);
             if (sd < 3 || n < 1) { // documented DomainError
                 if (ran || ran2)
@@ -1401,19 +1451,23 @@ int main(int argc, char **argv)
 
     // ================================================================ perfect power decomposition
     {
-        const ll N = T ? 20000 : 10000;
+        const ll N = T ? 50000 : 10000;
         // big cases: b^e and b^e +- 1 for large b (beyond the exhaustive range), fixed boundary list
         std::vector<std::pair<mpz_class, std::pair<mpz_class, ll>>> big; // (n, (base, exp)) with exp the highest exponent, base not a perfect power
         std::vector<std::string> bases = {"1000000007", "2147483647", "4294967297", "18446744073709551629", "99999999977", "6", "10", "12"};
         for (auto &bs : bases)
             for (ll e : {2, 3, 5, 7, 12}) {
                 mpz_class b(bs), n;
+                if ((ll)mpz_sizeinbase(b.get_mpz_t(), 2) * e > (T ? 230 : 130))
+                    continue; // the library's search is cubic in the bit length
+
                 mpz_pow_ui(n.get_mpz_t(), b.get_mpz_t(), e);
                 big.push_back({n, {b, e}});
                 big.push_back({n + 1, {n + 1, 1}}); // by Mihailescu's theorem b^e +- 1 is not a perfect power here
                 big.push_back({n - 1, {n - 1, 1}});
             }
         const ll NB = big.size();
+        (void)NB;
         Sub s("perfect-power", N + 1 + NB);
         s.cs.desc = [=](ll i) { return "mp_perfect_power_decomposition(n=" + (i <= N ? S(i) : S(big[i - N - 1].first)) + ")"; };
         s.cs.body = [=](ll i, Ctx &c) {
@@ -1478,7 +1532,7 @@ int main(int argc, char **argv)
 
     // ================================================================ nextprime / probab_prime_p
     {
-        const ll N = T ? 20000 : 10000;
+        const ll N = T ? 50000 : 10000;
         // Carmichael numbers, strong pseudoprimes (to bases 2; 2,3; 2,3,5; 2,3,5,7; first 8+ prime bases), Lucas / Fibonacci pseudoprimes,
         // squares of primes, and primes / composites around 2^31, 2^32, 2^64
         std::vector<std::string> special
@@ -1542,15 +1596,15 @@ int main(int argc, char **argv)
             ll np = std::max<ll>(a + 1, 2);
             while (!ref_isprime(np))
                 np++;
-            mpz_class got = Z(nextprime(*I(a)));
+            mpz_class got = Z(nextprime(*Int(a)));
             c.eval();
             JUDGED;
             c.nontrivial();
             c.outcome("gap" + S(np - a));
             if (got != np)
-                c.violation(std::string("nextprime(a") + sgn(a) + ")", "nextprime(" + S(a) + ") = " + S(got) + ", smallest prime above a is " + S(np));
+                c.violation(std::string("nextprime(a") + sc(a) + ")", "nextprime(" + S(a) + ") = " + S(got) + ", smallest prime above a is " + S(np));
             if (a >= 0) {
-                int pp = probab_prime_p(*I(a));
+                int pp = probab_prime_p(*Int(a));
                 c.eval();
                 JUDGED;
                 if ((pp > 0) != ref_isprime(a))
@@ -1574,7 +1628,7 @@ int main(int argc, char **argv)
         s.cs.body = [=](ll i, Ctx &c) {
             auto v = mx.at(i);
             ll n = v[0];
-            RCP<const Basic> arg = v[1] == 0 ? rcp_static_cast<const Basic>(I(n)) : v[1] == 1 ? rcp_static_cast<const Basic>(Rational::from_two_ints(*I(2 * n + 1), *I(2))) : rcp_static_cast<const Basic>(real_double(n + 0.5));
+            RCP<const Basic> arg = v[1] == 0 ? rcp_static_cast<const Basic>(Int(n)) : v[1] == 1 ? rcp_static_cast<const Basic>(Rational::from_two_ints(*Int(2 * n + 1), *Int(2))) : rcp_static_cast<const Basic>(real_double(n + 0.5));
             ll cnt = 0;
             mpz_class prod = 1;
             for (ll p = 2; p <= n; p++)
@@ -1626,7 +1680,7 @@ int main(int argc, char **argv)
              "legendre/jacobi/kronecker a x n incl. negative/even/zero n; nthroot_mod(_list) all (a,n,m) m <= MM, n <= NN incl. a<0, a>=m, m<=0; square roots mod 15 primes = 1 mod 8 above 10000 x rand() menu; "
              "powermod(_list) integer and rational exponents; quadratic_residues <= 300; is_quad_residue; is_nth_residue incl. negative a/mod; mobius/mertens; polygonal numbers/roots; "
              "perfect-power decomposition <= N plus b^e, b^e+-1 for big b; nextprime/probab_prime_p <= N plus Carmichael numbers and strong pseudoprimes; primepi/primorial <= 300 in three number forms. ")
-             + "Bounds: " + (T ? "R=40,M=60,NF=5000,N=20000,NG=400,MM=200,NN=8" : "R=24,M=36,NF=2500,N=10000,NG=200,MM=72,NN=6")
+             + "Bounds: " + (T ? "R=60,M=90,NF=5000,N=50000,NG=400,MM=256,NN=10" : "R=24,M=36,NF=2500,N=10000,NG=200,MM=72,NN=6")
              + ". Each result is compared with a brute-force evaluation of the definition. distinct_nontrivial = tuples where the function's result is not the degenerate one (composite n, non-empty root set, coprime arguments, ...)";
     R.assumptions = {"GMP mpz/mpq arithmetic used by the oracle for big values is exact", "rand() interposition makes the randomised methods deterministic; only seeds {0,1,2,3} are covered",
                      "Pollard methods may give up on composites (counted), Lehman and trial division may not", "sign convention of bernoulli(1), values at n=0 of totient/carmichael/prime_factors and F(-1)/L(-1) are recorded but not judged",
